@@ -95,7 +95,12 @@ namespace pika::detail {
 
     inline std::string encode_and_enquote(std::string str)
     {
+        // the stored command line is split again with split_unix: the escape character itself and
+        // both quote characters have to be escaped (a lone backslash made the late command line
+        // handling fail with "unknown escape sequence")
+        encode(str, '\\', "\\\\", 2);
         encode(str, '\"', "\\\"", 2);
+        encode(str, '\'', "\\'", 2);
         return enquote(std::move(str));
     }
 
